@@ -16,7 +16,7 @@ def parse_report(log):
     if not m:
         return rep
     txt = m.group(0)
-    for k in ("api_mismatch_ids", "mt_mismatch_ids", "bad_crc_lines", "not_in_schema", "bad_wrappers", "counts"):
+    for k in ("api_mismatch_ids", "mt_mismatch_ids", "bad_crc_lines", "not_in_schema", "bad_wrappers", "name_mismatch_ids", "counts"):
         mm = re.search(r'\("%s",\s*\[(.*?)\]\)' % k, txt, re.S)
         if mm:
             rep[k] = [int(x) for x in re.findall(r"\d+", mm.group(1))]
@@ -45,6 +45,12 @@ def run(ctx):
         line = ids.get(crc, ("?", "?"))
         C.violation(ctx, "mismatch:%08x" % crc,
                     "schema definition `%s` is not matched by the registered Go type: %s" % (line[1][:200], describe(crc)[:300]),
+                    {"schema_line": line[1], "go_type": describe(crc), "constructor_id": "%08x" % crc})
+        explained.add("theories/Inst/C13i.v")
+    for crc in rep.get("name_mismatch_ids", []):
+        line = ids.get(crc, ("?", "?"))
+        C.violation(ctx, "names:%08x" % crc,
+                    "the fields of the registered Go type do not follow the parameter names of `%s` in order: %s" % (line[1][:200], describe(crc)[:300]),
                     {"schema_line": line[1], "go_type": describe(crc), "constructor_id": "%08x" % crc})
         explained.add("theories/Inst/C13i.v")
     for crc in rep.get("bad_crc_lines", []):
